@@ -42,6 +42,14 @@ def plan(tier, seed):
 
 
 def gen_case(rng, ctx):
+    if "D" not in ctx.mode and rng.random() < (0.004 if ctx.tier == "quick" else 0.002):
+        # large scores (1e4 .. 1e5): many permutations of many elements under unit penalties -- relative tolerances,
+        # float accumulation in the local search and int32 positions are only visible here
+        n, m = rng.choice([(30, 40), (45, 80), (60, 151)])
+        _, ds = gen.dataset(rng, cls="D1", n=n, m=m, names=list(range(n)))
+        sch = [list(v) for v in ref.PRESETS[rng.choice(["unifying", "pseudodistance", "induced_half"])]]
+        return {"ds": ds, "scheme": sch, "configs": ["BioConsert", "BioCo", "Borda", "Copeland", "KwikSort"],
+                "one": rng.random() < 0.5, "libseed": rng.randrange(10 ** 6), "dcls": "large", "scls": "S1"}
     case = algos.gen_algo_case(rng, ctx, classes="D1 D2 D3 D3 D4 D5 D6 D7 D7 D8 D9 D10", schemes="S1 S1 S2 S3 S3 S6 S7 S9 S10 S10 S11",
                                nmax=6 if "D" in ctx.mode else 8)
     return case
@@ -94,6 +102,8 @@ def check_case(case, ctx):
                 ctx.count("not_returned")      # C03 / C14 judge refusals and failures
                 continue
             ctx.count("consensuses")
+            if case.get("dcls") == "large":
+                ctx.count("large_score_consensuses")
             fam = family(cfg)
             try:
                 rankings = [libx.raw_ranking(r) for r in cons.consensus_rankings]
